@@ -50,10 +50,10 @@ import (
 	"go/types"
 	"log"
 	"os"
-	"strings"
 	"runtime"
 	"runtime/debug"
 	"slices"
+	"strings"
 	_ "unsafe"
 
 	"golang.org/x/tools/go/ssa"
@@ -465,7 +465,9 @@ func callSSA(i *interpreter, caller *frame, callpos token.Pos, fn *ssa.Function,
 			i.top = fr
 			r := ext(fr, args)
 			i.top = saved
-			return r
+			if _, fall := r.(interpretInstead); !fall {
+				return r
+			}
 		}
 		if fn.Blocks == nil && fn.Pkg != nil {
 			fn.Pkg.Build()
@@ -654,4 +656,3 @@ func doRecover(caller *frame) value {
 	}
 	return iface{}
 }
-
